@@ -359,7 +359,7 @@ func c02LBValid(c c02LBCase) bool {
 				return false // with no guard in the way a hijack succeeds for real: outside the statement
 			}
 		case "I":
-			if s.N != 100 && s.N != 102 && s.N != 103 {
+			if !c02ValidInfo(s.N) {
 				return false
 			}
 		case "S":
@@ -485,6 +485,9 @@ func c02LBRun(c c02LBCase) (v kit.Verdict) {
 		}
 		if p.info {
 			cls["informational-1xx-first"] = true
+		}
+		if p.infoOther {
+			cls["informational-1xx-other-than-100/102/103"] = true
 		}
 		if p.ctl {
 			cls["flush/response-controller"] = true
@@ -660,7 +663,7 @@ func c02LBGen(rt *rapid.T) c02LBCase {
 			switch k := rapid.SampledFrom(kinds).Draw(rt, "k"); k {
 			case "I":
 				infos++
-				p = append(p, c02Step{K: "I", N: rapid.SampledFrom([]int{100, 102, 103}).Draw(rt, "info")})
+				p = append(p, c02Step{K: "I", N: c02GenInfo(rt)})
 			case "F", "RF", "RD", "RH":
 				p = append(p, c02Step{K: k})
 				flushed = flushed || k == "F" || k == "RF"
